@@ -206,7 +206,8 @@ def r3_join(ctx) -> None:
     members = {k: ast.literal_eval(v) for k, v in tb.class_assigns.items() if isinstance(v, ast.Constant)}
     ctx.check(set(members) == {"Copyable", "Any"}, "C07.R3", "TypeBound members", file, tb.node.lineno,
               "the bound lattice analysed here is {Copyable < Any}", tb.node, found=str(members))
-    body = real_body(m)
+    # canonical body: a fold written with reduce(step, bs, init) is the loop `acc = init; for b in bs: acc = step(acc, b)`, helpers seen through
+    body = ctx.cfn("hugr._serialization.tys.TypeBound.join", subst=False).body
     var = m.args.vararg.arg if m.args.vararg else None
     if var is None:
         ctx.broken("TypeBound.join: expected a *bs parameter")
